@@ -10,9 +10,11 @@ PYTHONPATH=$PP /venv/bin/python "$d/demo.py" >/tmp/demo-clean.txt 2>&1; echo "de
 git apply "$d/patch.diff" || { echo "patch does not apply"; exit 2; }
 PYTHONPATH=$PP /venv/bin/python "$d/demo.py" >/tmp/demo-patched.txt 2>&1; echo "demo with patch: rc=$? ($(tail -1 /tmp/demo-patched.txt | cut -c1-160))"
 cd /verif
+bak=$(mktemp -d /tmp/evid.XXXXXX); cp evidence/*.json $bak/ 2>/dev/null
 for id in "$@"; do
   out=$(./check $id --tier $tier 2>&1); rc=$?
   echo "check $id ($tier) with patch: rc=$rc :: $(echo "$out" | grep "^$id tier" | cut -c1-140)"
   echo "$out" | grep -A1 VIOLATION | head -6 | cut -c1-330
 done
+cp $bak/*.json evidence/ 2>/dev/null; rm -rf $bak   # evidence files must describe the unchanged tree
 git -C /repo checkout -- . ; git -C /repo status --porcelain | head -3
